@@ -3,11 +3,12 @@ import os
 import vlib
 
 OVERLAY = {"node/pkg/processor/zz_verif_proc_test.go": "processor/proc_verif_test.go",
-           "node/pkg/notify/discord/zz_verif_export.go": "discord/verif_export.go"}
+           "node/pkg/notify/discord/zz_verif_export.go": "discord/verif_export.go",
+           "node/pkg/db/zz_verif_export.go": "db/verif_export.go"}
 
 CLAUSES = {
     "C13": ("panic-",),
-    "C01": ("published-vaa-", "stored-", "published-names-other-set"),
+    "C01": ("published-vaa-", "stored-", "published-names-other-set"),   # incl. stored-vaa-not-served
     "C04": ("signed-digest-differs-from-message",),
     "C07": ("complete-vaa-rejected-on-chain",),
     "C06": ("stored-vaa-not-quorum-verifiable",),
